@@ -11,7 +11,7 @@ func init() {
 		return func(mode string, args []string, has func(...string) bool) bool { return has(names...) }
 	}
 	// (unuse-package <package>) rebuilds cl-user's tables from an incomplete use list: every later error is a nil dereference
-	isolateRules["common-lisp:unuse-package"] = anyOf("pkg")
+	isolateRules["common-lisp:unuse-package"] = anyOf("pkg", "lisppkg", "kwpkg", "pkd")
 	// reading a line from a closed stream never returns
 	isolateRules["common-lisp:read-line"] = anyOf("scl")
 	// (do () (t)): an end test that is a symbol or a constant is dropped, the loop never ends
